@@ -57,10 +57,11 @@ class Check(DiffCheck):
     case_timeout = 3000
     rule = ('cases: corpus (F12 witness first); every permutation of the responses for k<=4 callers x a delay placed '
             'before the header / between header and body / after the body of every response x caller deadlines '
-            'before/at/after that delay; PRNG scripts: fragmentation at arbitrary bytes (inside headers), staggered starts, '
-            'EOF at byte k, unknown / duplicate tags, garbage headers, zero-length bodies. non-trivial = >= 2 callers and a '
+            'before/at/after that delay; end of stream at EVERY byte k of a two-response wire; an unknown / duplicate tag at every '
+            'position among the responses of 2 and 3 callers; PRNG scripts: fragmentation at arbitrary bytes (inside headers), '
+            'staggered starts, EOF at byte k, unknown / duplicate tags, garbage headers, zero-length bodies. non-trivial = >= 2 callers and a '
             'response addressed to a caller other than the first reader')
-    assumptions = ['one vCPU (rpc.h 69-70)', 'the scripted stream never blocks in writev', 'm_tag does not wrap (2^64 calls)',
+    assumptions = ['one vCPU (rpc.h 69-70)', 'the scripted stream never blocks in writev (class guard of known finding F34, whose witness is replayed on the implementation on every run)', 'm_tag does not wrap (2^64 calls)',
                    'no engine shutdown / set_stream during calls']
     trusted_base = ['E2 hooks H-clock/H-idle (virtual clock) in thread.cpp', 'harness/C11 scripted IStream and its owner registry',
                     'C04 sleep-queue heap model (order of equal deadlines)']
